@@ -48,6 +48,16 @@ TCall ==
             /\ Step(StateFails) /\ a' = [a EXCEPT !.ready = E.ready]
        [] E.op = "try_read_100" ->
             /\ Step(StateFails \cup Read100Fails(a, E)) /\ a' = Read100Upd(a, E)
+       [] E.op = "try_response" /\ E.kind = "truncated3xx" ->
+            \* a 3xx head that stops after a complete Location line (no final CRLF): "need more", or — only as the
+            \* listed deviation PartialRedirect (KF1) — a response that consumes everything offered.  In that case the
+            \* message boundary is lost, so the connection must never be offered for reuse (C10).
+            /\ Step(StateFails \cup
+                    FClause("C05", "a truncated head must yield 'need more data' (or the listed deviation PartialRedirect)",
+                            (E.res = "none" /\ E.n = 0) \/ (E.res = "some" /\ E.n = E.w /\ "PartialRedirect" \in Known)))
+            /\ a' = IF E.res = "some"
+                    THEN [a EXCEPT !.status = E.cell.status, !.modes = {NoBody}, !.ready = E.ready, !.facts = @ \cup {"ServerClose"}]
+                    ELSE a
        [] E.op = "try_response" ->
             /\ Step(StateFails \cup ResponseFails(a, E)) /\ a' = ResponseUpd(a, E)
        [] E.op = "verdict" ->
